@@ -223,6 +223,8 @@ func runC05(w *World, r *Report, tier string) {
 	}
 	r.Floor("R4", 4)
 
+	r.Rule("R9", "no double delivery of an IQ response (shared with C07.R1): the lookup that claims a pending entry and its delete are one write-locked critical section — two routing goroutines cannot both send on and close the entry's channel")
+	iqClaimAtomic(w, r, "R9")
 	c05WebsocketReader(w, r)
 	// ---- R7 (continued): optional members of received elements
 	for _, mi := range w.optionalMemberInvokes(w.LibFuncs()) {
